@@ -364,9 +364,11 @@ static unsigned int find_next(uint8_t* bits, unsigned int max, unsigned int valu
         next_value = next_set_bit(bits, max, 0, &notfound);
     }
     if (notfound || next_value != value) {
-        err = set_field(calendar, field, next_value);
-        if (err) goto return_error;
+        /* reset the lower order fields first: setting e.g. the month while the day of month
+         * is still 29..31 would be normalized by mktime into the following month */
         err = reset_all_min(calendar, lower_orders);
+        if (err) goto return_error;
+        err = set_field(calendar, field, next_value);
         if (err) goto return_error;
     }
     return next_value;
